@@ -44,7 +44,7 @@ impl<'n> TryFromNode<'n> for ComplexProps {
                 result = read_complex_content_node(element_name, n, doc)?;
             }
 
-            if matches!(n.tag_name().name(), "sequence" | "choice") {
+            if matches!(n.tag_name().name(), "sequence" | "choice" | "all") {
                 result = read_sequence_node(element_name, n, doc)?;
             }
 
@@ -111,13 +111,13 @@ fn import_sequence_node_fields(
             continue;
         }
 
-        if tag_name == "sequence" {
-            // nested sequence
+        if matches!(tag_name, "sequence" | "all") {
+            // nested sequence; the members of an all group are members like those of a sequence
             import_sequence_node_fields(&mut child, doc, base_fields)?;
             continue;
         }
 
-        if matches!(tag_name, "attributeGroup" | "anyAttribute" | "all") {
+        if matches!(tag_name, "attributeGroup" | "anyAttribute") {
             // these do not declare a member
             continue;
         }
